@@ -982,6 +982,9 @@ def normalised_copy(chk):
 
 
 MUTANTS = [
+    ('resolve_ops delegation drops meta', 'yastn/tensor/_output.py', '        return a.consume_transpose().to_dict(level=level, meta=meta, resolve_ops=False)', '        return a.consume_transpose().to_dict(level=level)', 'Z9'),
+    ('bra restored from the ket key', 'yastn/tn/fpeps/_peps.py', "            bra = Peps.from_dict(d['bra'], config=config) if ('bra' in d) else None", "            bra = Peps.from_dict(d['ket'], config=config) if ('bra' in d) else None", 'Z10'),
+    ('bare sorted over mixed keys', 'yastn/_split_combine_dict.py', '    for k in _sorted_keys(d):', '    for k in sorted(d):', 'Z11'),
     ("reader forgets single-precision complex", "yastn/tensor/__init__.py", "for name in ('float32', 'float64', 'complex64', 'complex128', 'bool'):", "for name in ('float32', 'float64', 'complex128', 'bool'):", "Z8"),
     ("drop trans from to_dict", "yastn/tensor/_output.py", "         'trans': a.trans,\n", "", "Z1"),
     ("drop pC from MPS to_dict", "yastn/tn/mps/_mps_parent.py", "                'pC': psi.pC,\n", "", "Z1"),
